@@ -317,6 +317,23 @@ func runC18(r *run) {
 		slog.RemoveFlags(slog.Lprivacypath)
 		check("privacy off")
 		slog.AddFlags(slog.Lprivacypath)
+		// a record whose caller cannot be resolved (skip count beyond the stack), right after a record that showed the raw
+		// path: whatever its caller field says, it is not a path that the flag, now on, would have hardened
+		deep := l.WithSkip(1000).SetWriter(rec).SetErrorWriter(rec).SetColorMode(false).SetLevel(slog.InfoLevel)
+		rec.take()
+		deep.InfoContext(ctx, "caller-probe without a resolvable caller")
+		if w := rec.take(); len(w) == 1 {
+			got := "<no caller>"
+			if i := bytes.Index(w[0], []byte(`caller.file="`)); i >= 0 {
+				rest := w[0][i+13:]
+				got = string(rest[:bytes.IndexByte(rest, '"')])
+			}
+			r.seen("unresolvable-caller|" + fmt.Sprint(got == ""))
+			if got != "<no caller>" && got != slog.Safety(got) {
+				r.violate(violation{What: "the caller field of a record without a resolvable caller shows a path the privacy flag should have hardened (left over from an earlier record)",
+					Input: map[string]any{"history": hist, "stage": "privacy on again, skip count beyond the stack", "flags": int64(slog.GetFlags())}, Expected: slog.Safety(got), Actual: got})
+			}
+		}
 		check("privacy on again")
 	}
 	slog.VerifResetGlobals()
